@@ -219,4 +219,4 @@ mod tests {
 
 #[cfg(kani)]
 #[path = "/verif/harness/may/sync_wait_group.rs"]
-mod verif_kani;
+pub(crate) mod verif_kani;
